@@ -127,8 +127,10 @@ class SafetyMonitor(Monitor):
         # ---- a node never drops entries it knows to be committed (C04)
         if 'C04' in C and post.commit is not None and post.last is not None and post.last < post.commit and \
                 not (post.commit != pre.commit or restarted):
-            raise core.Violation('C04 %s cut its log back to %d although it knows positions up to %d to be committed (%r)' % (
-                nid, post.last, post.commit, ev), sig='commit-beyond-log')
+            older = pre.alive and pre.applied is not None and post.applied is not None and post.applied < pre.applied
+            raise core.Violation('C04 %s cut its log back to %d although it knows positions up to %d to be committed%s (%r)' % (
+                nid, post.last, post.commit, ' (it installed a snapshot older than what it had applied)' if older else '', ev),
+                sig='older-snapshot-installed' if older else 'commit-beyond-log')
 
         # ---- commit index advance (C04)
         if post.commit is not None and (restarted or post.commit != pre.commit):
